@@ -44,7 +44,7 @@ ParamExtensionMasked(doc, v, opts) ==
    /\ v.rule = "extra_field" /\ v.kind = "parameter" /\ "DisEx" \in opts
    /\ Has(AtPtr(doc, v.at), "schema")
 
-(*----- the request / response mode in which an example is judged (findings 12 and 13) -----*)
+(*----- the request / response mode in which an example is judged (findings 13 and 14) -----*)
 ExR == {"example_mismatch", "examples_mismatch"}
 ModeKinds == {"mediaType", "header", "parameter", "schema"}
 ExRulesAt(doc, kind, at, mode) == LocalRules(kind, AtPtr(doc, at), doc, mode) \cap ExR
@@ -86,7 +86,7 @@ PosOf(via, at) ==
 RECURSIVE NoLater(_, _)
 NoLater(a, b) == IF a = <<>> THEN TRUE ELSE IF b = <<>> THEN FALSE
                  ELSE IF Head(a) # Head(b) THEN Head(a) < Head(b) ELSE NoLater(Tail(a), Tail(b))
-(* F-C04-13: Request Body and Response set the mode in the options shared by the whole walk and nobody resets *)
+(* F-C04-14: Request Body and Response set the mode in the options shared by the whole walk and nobody resets *)
 (* it: a place is judged in the mode of the last Request Body / Response entered before it                    *)
 StickyMode(sites, via, at) ==
    LET me == PosOf(via, at)
@@ -94,7 +94,7 @@ StickyMode(sites, via, at) ==
    IF before = {} THEN "any"
    ELSE LET last == CHOOSE y \in before : \A z \in before : NoLater(PosOf(z.via, z.at), PosOf(y.via, y.at)) IN
         IF last.kind = "requestBody" THEN "req" ELSE "res"
-(* F-C04-12: without any option there are no shared options at all (WithValidationOptions returns the context *)
+(* F-C04-13: without any option there are no shared options at all (WithValidationOptions returns the context *)
 (* unchanged, getValidationOptions hands out a fresh struct each time): the mode is never seen               *)
 ImplModeOpen(sites, via, at, noopt) == IF noopt THEN "any" ELSE StickyMode(sites, via, at)
 ContextLost(doc, v, noopt) ==
@@ -102,7 +102,7 @@ ContextLost(doc, v, noopt) ==
 ContextLeak(doc, sites, v, noopt) ==
    ~noopt /\ v.rule \in ExR /\ v.kind \in ModeKinds
    /\ v.rule \notin ExRulesAt(doc, v.kind, v.at, StickyMode(sites, v.via, v.at))
-(* F-C04-14: the examples map (its Example Objects, its references) and the example / examples exclusion are  *)
+(* F-C04-15: the examples map (its Example Objects, its references) and the example / examples exclusion are  *)
 (* only looked at inside "if schema != nil": not for a media type without schema, not for a parameter or     *)
 (* header described by content                                                                               *)
 NoSchemaExamples(doc, v) ==
@@ -110,7 +110,7 @@ NoSchemaExamples(doc, v) ==
    \/ /\ LastEdge(v.via) \in {<<"parameter", "examples">>, <<"header", "examples">>, <<"mediaType", "examples">>}
       /\ Len(v.at) >= 2 /\ ~Has(AtPtr(doc, SubSeq(v.at, 1, Len(v.at) - 2)), "schema")
 
-(* F-C04-15 Link.Validate never validates the Server Object of the link *)
+(* F-C04-16 Link.Validate never validates the Server Object of the link *)
 UnderLinkServer(v) == HasEdge(v.via, "link", "server")
 
 Missed(doc, sites, v, opts, noopt) ==
